@@ -465,12 +465,21 @@ func runC11(c *core.Ctx) {
 		}
 	}
 	c.ProgressStride(1)
-	// DevAddr 0xFF...... has no type
+	// DevAddr 0xFF...... carries none of the eight type prefixes: it must not be given a type and it is a
+	// member of no NetID (what NwkID() returns for it - nil, empty - is not the property's business)
 	if c.Whole("addr-notype") {
 		da := lorawan.DevAddr{0xff, 1, 2, 3}
 		c.Eval(2)
-		if da.NetIDType() != -1 || da.NwkID() != nil {
-			c.Violate("C11|addr-notype", "DevAddr ff010203: NetIDType=%d NwkID=%x", da.NetIDType(), da.NwkID())
+		if t := da.NetIDType(); t >= 0 && t <= 7 {
+			c.Violate("C11|addr-notype", "DevAddr ff010203 (no type prefix): NetIDType=%d", t)
+		}
+		for t := uint32(0); t < 8; t++ {
+			for _, id := range []uint32{0, 1, 0x3, 0x7f, 0x1ffff, 0x1fffff} {
+				c.Eval(1)
+				if da.IsNetID(netIDFrom(t<<21 | id)) {
+					c.Violate("C11|addr-notype-member", "DevAddr ff010203 (no type prefix) is reported as a member of NetID %06x", t<<21|id)
+				}
+			}
 		}
 	}
 
